@@ -106,5 +106,29 @@ theorem Inv.faces_are_facets {c : Cx α} (h : Inv c) {s t : Simp α} (hs : s ∈
       simpa [Simp.pts] using this
     rw [← this, hu2]; exact hf
 
+/-- under `Inv`, every point of a simplex's basis is (the name of) an order-0 simplex inside it -/
+theorem Inv.basis_point {c : Cx α} (h : Inv c) :
+    ∀ (k : Nat) {u : Simp α}, u ∈ c.simps → u.order = k → ∀ p ∈ u.basis,
+      ∃ t ∈ c.simps, t.name = p ∧ t.order = 0 ∧ t.pts ⊆ u.pts := by
+  intro k
+  induction k with
+  | zero =>
+    intro u hu h0 p hp
+    have := (h.point u hu h0).2
+    rw [this, List.mem_singleton] at hp
+    subst hp
+    exact ⟨u, hu, rfl, h0, Finset.Subset.refl _⟩
+  | succ k ih =>
+    intro u hu hk p hp
+    obtain ⟨-, -, hfex, -, -, hbiff⟩ := h.higher u hu (by omega)
+    obtain ⟨f, hf, t, ht, hn, hpt⟩ := (hbiff p).mp hp
+    obtain ⟨t', ht', hn', ho'⟩ := hfex f hf
+    have : t' = t := h.name_inj ht' ht (hn'.trans hn.symm)
+    subst this
+    obtain ⟨q, hq, h1, h2, h3⟩ := ih ht' (by omega) p hpt
+    refine ⟨q, hq, h1, h2, h3.trans ?_⟩
+    exact ((h.faces_are_facets hu ht' (by omega)).mp (hn' ▸ hf)).2
+
+
 #print axioms Inv.faces_are_facets
 end Flat
